@@ -290,7 +290,8 @@ def run_property(prop, tier="quick", seed=0, jobs=None, rebaseline=False, only=N
             bounded = None
         if bounded:
             for fail in bounded.get("failures", []):
-                match = _match_known(kf, fail.get("check", ""), fail.get("input"), fail.get("observed", ""))
+                match = _match_known(kf, fail.get("check", ""), fail.get("input"), fail.get("observed", ""),
+                                     fail.get("expected", ""))
                 if match is not None:
                     line = f"KNOWN-FINDING: property={prop} {match['what']}"
                     if line not in known_lines:
@@ -405,7 +406,33 @@ def run_property(prop, tier="quick", seed=0, jobs=None, rebaseline=False, only=N
     return 0
 
 
-def _match_known(kf, name, inputs, detail):
+def _lit(x):
+    import ast as _ast
+    try:
+        return _ast.literal_eval(x)
+    except Exception:  # noqa: BLE001
+        return None
+
+
+def _stray_cr(obs, exp):
+    """C01 signature: same parts, and every differing payload is the expected one plus one CR"""
+    try:
+        if obs["status"] != "ok" or exp["status"] != "ok" or len(obs["parts"]) != len(exp["parts"]):
+            return False
+        diff = 0
+        for a, b in zip(obs["parts"], exp["parts"]):
+            if a[:-1] != b[:-1]:
+                return False
+            if a[-1] != b[-1]:
+                if a[-1] != b[-1] + b"\r":
+                    return False
+                diff += 1
+        return diff > 0
+    except Exception:  # noqa: BLE001
+        return False
+
+
+def _match_known(kf, name, inputs, detail, expected=""):
     for f in kf:
         ob = f.get("obligation")
         if ob and ob not in name:
@@ -414,7 +441,8 @@ def _match_known(kf, name, inputs, detail):
         if pred:
             try:
                 ok = eval(pred, {"inputs": verify.unjson(inputs) if inputs is not None else None,  # noqa: S307
-                                 "detail": detail or "", "name": name})
+                                 "detail": detail or "", "name": name, "expected": expected or "",
+                                 "lit": _lit, "stray_cr": _stray_cr})
             except Exception:  # noqa: BLE001
                 ok = False
             if not ok:
